@@ -55,7 +55,9 @@ pub fn classify(name: &str) -> NameClass {
     if parts[0] == "META-INF" {
         let file = parts[parts.len() - 1];
         let ext = file.rsplit_once('.').map(|(_, e)| e).unwrap_or("");
-        let strict = ["SF", "RSA", "DSA", "EC"].into_iter().find(|e| *e == ext);
+        // "signature files" of the statement: the signature file (.SF) and the RSA block the Minecraft jars carry (what the
+        // Java JarMerger this code ports removes); .DSA / .EC blocks are left open (kept or removed, both accepted and counted)
+        let strict = ["SF", "RSA"].into_iter().find(|e| *e == ext);
         if let (Some(e), 2) = (strict, parts.len()) { return NameClass::Signature(e); }
         if ["SF", "RSA", "DSA", "EC"].iter().any(|e| e.eq_ignore_ascii_case(ext)) || file.starts_with("SIG-") { return NameClass::SignatureOpen; }
     }
